@@ -711,6 +711,7 @@ class BeliefPropagation(Inference):
 
         self.clique_beliefs = {}
         self.sepset_beliefs = {}
+        self._calibrated_by = None
 
     def get_cliques(self):
         """
@@ -855,6 +856,7 @@ class BeliefPropagation(Inference):
         # downward pass: update the beliefs of all the nodes starting from the root to leaves
         for parent, child in bfs_edges:
             self._update_beliefs(parent, child, operation=operation)
+        self._calibrated_by = operation
 
     def calibrate(self):
         """
@@ -957,7 +959,12 @@ class BeliefPropagation(Inference):
         Probabilistic Graphical Models: Principles and Techniques Daphne Koller and Nir Friedman.
         """
 
-        is_calibrated = self._is_converged(operation=operation)
+        # The beliefs used below have to come from sum-calibration. The convergence test alone
+        # cannot tell: for small potentials, beliefs left behind by `max_calibrate()` pass it
+        # (it compares unnormalised values with an absolute tolerance).
+        is_calibrated = getattr(
+            self, "_calibrated_by", None
+        ) == "marginalize" and self._is_converged(operation="marginalize")
         # Calibrate the junction tree if not calibrated
         if not is_calibrated:
             self.calibrate()
